@@ -7,6 +7,14 @@ use serde_json::Value;
 
 pub fn check(name: &str, case: &Value, v: &Violation) -> bool {
     match name {
+        "names_collide_after_sanitisation" => {
+            let pascal = case.get("use").and_then(|u| u.as_str()) != Some("prop");
+            let names: Vec<String> = case.get("names").and_then(|n| n.as_array()).map(|a| a.iter().filter_map(|x| x.as_str().map(|s| crate::gen::names::sanitize_like(s, pascal))).collect()).unwrap_or_default();
+            let mut d = names.clone();
+            d.sort();
+            d.dedup();
+            d.len() < names.len()
+        }
         "default_beyond_f64_precision" => case.get("schema").and_then(|s| s.get("default")).and_then(|d| d.as_f64()).map(|d| d.abs() >= 9007199254740992.0).unwrap_or(false),
         "enum_constrained_newtype_over_non_partialeq_type" => v.detail.contains("can't compare") && v.detail.contains(".contains(&value)"),
         "union_branches_share_prop_with_different_inline_schema" => union_branches_share_prop(case),
